@@ -7,10 +7,8 @@
 package main
 
 import (
-	"bufio"
 	"encoding/json"
 	"fmt"
-	"os"
 
 	"github.com/synnaxlabs/cesium/internal/unary"
 	"github.com/synnaxlabs/cesium/verifh/cesh"
@@ -128,18 +126,11 @@ func runCase(c tcase) (res result) {
 }
 
 func main() {
-	in := bufio.NewReaderSize(os.Stdin, 1<<20)
-	w := bufio.NewWriter(os.Stdout)
-	defer w.Flush()
-	dec := json.NewDecoder(in)
-	for {
+	cesh.Serve(func(line []byte) any {
 		var c tcase
-		if err := dec.Decode(&c); err != nil {
-			return
+		if err := json.Unmarshal(line, &c); err != nil {
+			return result{Fatal: "bad case: " + err.Error()}
 		}
-		b, _ := json.Marshal(runCase(c))
-		w.Write(b)
-		w.WriteString("\n")
-		w.Flush()
-	}
+		return runCase(c)
+	})
 }
